@@ -30,6 +30,7 @@ def test_replay(path):
     common.lib()
     rp = json.load(open(path))
     mod = importlib.import_module("qmc.props." + rp["property"].lower())
-    res = mod.replay(rp["case"])
+    case = rp["case"]
+    res = mod.run_item(case["item"]) if isinstance(case, dict) and set(case) == {"item"} else mod.replay(case)
     d = res.to_dict() if isinstance(res, Acc) else res
     assert not d["violations"], f"{rp['property']} {rp['signature']} still violated: {json.dumps(d['violations'][0])[:500]}"
